@@ -26,10 +26,11 @@
 (* (prefix string, type, rate/goal, fields) -- tuning parameters and       *)
 (* UseClusterSize are missing, and the prefix of a downstream sampler of   *)
 (* destination d is the string "rules:d:", which another destination may   *)
-(* be named.  A Decide step in which a sampler receives an instance that was  *)
-(* created for a different definition is labelled dev |-> "key-collision"  *)
-(* and taints the run; the C12/C13 invariants are demanded of untainted    *)
-(* runs (all runs when Faithful = FALSE).                                  *)
+(* be named.  A Decide step in which a sampler receives an instance that   *)
+(* was created for a different definition is labelled                      *)
+(* dev |-> "key-collision" and taints the run; the C12/C13 invariants are  *)
+(* demanded of untainted runs (all runs when Faithful = FALSE; with        *)
+(* Faithful = TRUE the unguarded NeverTainted fails, MC_Samplers_bites.cfg)*)
 (*                                                                         *)
 (* Definitions are referred to by their index in sc.tab, the table of all  *)
 (* definitions [d |-> destination, p |-> position, l |-> leaf] of the two  *)
@@ -361,6 +362,9 @@ TypeOK ==
             LET s == local[w][d].s[i]
             IN s.l \in 1..NDef /\ s.cr \in 0..NDef /\ s.ep \in 0..epoch /\ Tab[s.l].d = d
   /\ \A e \in reg : e.cr \in 1..NDef /\ e.goal >= 0
+  /\ \A w \in Workers, d \in Dests : \A i \in 1..Len(local[w][d].s) :   \* an instance of the current
+       LET s == local[w][d].s[i]                                         \* epoch is registered
+       IN (s.cr # 0 /\ s.ep = epoch) => \E e \in reg : e.cr = s.cr
   /\ \A e1, e2 \in reg : e1.cr = e2.cr => e1 = e2
   /\ gauge \in 0..NDef
   /\ (tainted => Faithful)
@@ -430,18 +434,20 @@ NeverTainted == ~tainted
 ---------------------------------------------------------------------------
 (* Projection compared with the real objects: for every sampler a worker    *)
 (* holds, the instance behind it (named as explained at the top; the        *)
-(* harness names a dynsampler pointer by the slot in which it first saw it) *)
-(* whether that instance is still registered, and its GoalThroughputPerSec  *)
-(* (0: not a throughput sampler, -1: instance no longer registered).        *)
+(* harness names a dynsampler pointer by the slot in which it first saw it  *)
+(* and the number of ClearDynsamplers calls before that) and its            *)
+(* GoalThroughputPerSec (0: not a throughput sampler, -1: instance of an    *)
+(* earlier epoch, i.e. dropped from the registry; its goal is nobody's      *)
+(* business).  The unique_dynsampler_count gauge is modelled but not        *)
+(* compared: no property speaks about it.                                   *)
 
-SlotView(s) == [cr |-> s.cr, ep |-> s.ep, live |-> Live(s),
+SlotView(s) == [cr |-> s.cr, ep |-> s.ep,
                 goal |-> IF ~HasInst(s) \/ ~IsTput(LeafOf(s).t) THEN 0
                          ELSE IF Live(s) THEN EntryOf(s).goal ELSE -1]
 
-Abs == [ local  |-> [w \in Workers |-> [d \in Dests |->
-                       [c |-> local[w][d].c,
-                        s |-> [i \in 1..Len(local[w][d].s) |-> SlotView(local[w][d].s[i])]]]],
-         unique |-> gauge ]
+Abs == [ local |-> [w \in Workers |-> [d \in Dests |->
+                      [c |-> local[w][d].c,
+                       s |-> [i \in 1..Len(local[w][d].s) |-> SlotView(local[w][d].s[i])]]]] ]
 
 \* hidden part of the state (a graph node is Abs + Hid)
 B(x) == IF x THEN 1 ELSE 0
@@ -450,7 +456,8 @@ Hid == [ sci  |-> sc.i, nchg |-> nchg, rs |-> B(reloadSig), ts |-> toSignal,
          own  |-> [i \in 1..NW |-> [j \in 1..ND |->
                      LET c == local[WSeq[i]][DSeq[j]] IN [x \in 1..Len(c.s) |-> c.s[x].l]]],
          reg  |-> {<<e.cr, B(e.scaled), e.goal>> : e \in reg},
-         ep   |-> epoch, peers |-> peers, pc |-> peerCount, cb |-> B(cbPending), tn |-> B(tainted) ]
+         ep   |-> epoch, peers |-> peers, pc |-> peerCount, cb |-> B(cbPending), tn |-> B(tainted),
+         gauge |-> gauge ]
 
 Params == [ workers |-> WSeq, dests |-> DSeq,
             scenarios |-> [i \in 1..Len(ScenarioSeq) |-> FullScenario(i)],
